@@ -4,6 +4,7 @@ import (
 	"encoding/binary"
 	"errors"
 	"fmt"
+	"math"
 	"strings"
 )
 
@@ -159,6 +160,9 @@ func (aa ArchiveInfoList) validate() error {
 		if a.offset != off {
 			return fmt.Errorf("invalid archive%v: invalid offset got:%v, want:%v", i, a.offset, off)
 		}
+		if uint64(off)+uint64(a.numberOfPoints)*pointSize > math.MaxUint32 {
+			return fmt.Errorf("invalid archive%v: archive does not fit in 32-bit file offsets", i)
+		}
 
 		if i == len(aa)-1 {
 			break
@@ -212,6 +216,9 @@ func (a ArchiveInfo) validate() error {
 	}
 	if a.numberOfPoints <= 0 {
 		return errors.New("number of points must be positive")
+	}
+	if int64(a.secondsPerPoint)*int64(a.numberOfPoints) > math.MaxInt32 {
+		return errors.New("retention must fit in 31 bits")
 	}
 	return nil
 }
